@@ -96,6 +96,12 @@ def crps_kernels(tree, site, T):
     fn = T.find_function(tree, "crps_for_ensemble")
     body = [s for s in fn.body if not T.is_docstring(s)]
     U = T.Unsupported
+    # ---- fcst / obs are the arguments throughout: the only re-binding accepted is a conversion of the storage dtype to floating
+    #      point (the identity on the values the model computes with); anything else is not what the hand model assumes ----
+    for s in body:
+        for nm in ("fcst", "obs"):
+            if nm in T_assigned(s) and ast.unparse(s) not in (f"{nm} = 1.0 * {nm}", f"{nm} = {nm} * 1.0", f"{nm} = {nm}.astype(float)"):
+                raise U(f"crps_for_ensemble re-binds {nm}: {ast.unparse(s)[:80]}")
     # ---- the statements that touch the spread term, in order: init, loop, normalisation ifs, [components if] ----
     touching = [s for s in body if "fcst_spread_term" in T_assigned(s)]
     if len(touching) < 3:
